@@ -442,7 +442,6 @@ class TaxBenefitSystem:
             return self.get_parameters_at_instant(instant)
         return baseline._get_baseline_parameters_at_instant(instant)
 
-    @functools.lru_cache
     def get_parameters_at_instant(
         self,
         instant: str | int | Period | Instant,
@@ -475,7 +474,18 @@ class TaxBenefitSystem:
         if self.parameters is None:
             return None
 
-        return self.parameters.get_at_instant(key)
+        # The cache is only valid for the parameter tree it was built from.
+        cache = self.__dict__.get("_parameters_at_instant_cache")
+        if cache is None or self.__dict__.get("_cached_parameters") is not self.parameters:
+            cache = self._parameters_at_instant_cache = {}
+            self._cached_parameters = self.parameters
+
+        parameters_at_instant = cache.get(key)
+        if parameters_at_instant is None:
+            parameters_at_instant = self.parameters.get_at_instant(key)
+            cache[key] = parameters_at_instant
+
+        return parameters_at_instant
 
     def get_package_metadata(self) -> dict[str, str]:
         """Gets metadata relative to the country package.
